@@ -1,7 +1,7 @@
 (* Proofs/FaultyMem.v — facts about single MemMapFs calls used by the C12 proofs
    (Proofs/FaultyProof.v): what Stat / MkdirAll / Create / Write / Read / Close / Remove /
    Chtimes do to the entry of one name, to its parent's registration and to one handle. *)
-From AF Require Import Lib.Bytes Lib.Path Lib.Ops Gen.Consts Model.MemFile Model.MemFs Proofs.PathProof.
+From AF Require Import Lib.Bytes Lib.Path Lib.Ops Gen.Consts Model.MemFile Model.MemFs Proofs.PathProof Proofs.MemBelow.
 Local Open Scope Z_scope.
 
 (* ---------------------------------------------------------------- lists *)
@@ -276,20 +276,20 @@ Proof.
   intros H. rewrite m_step_bump. cbn [m_step_raw]. unfold m_mkdirall, m_mkdir. rewrite H. reflexivity.
 Qed.
 
-Lemma mkdirall_fresh s p perm : lookup s (normalize_path p) = None ->
+Lemma mkdirall_fresh s p perm : lookup s (normalize_path p) = None -> below_file s (normalize_path p) = false ->
   exists s', m_step s (MkdirAll p perm) = (bump s', ROk) /\ grows s s' /\
     (exists item nd, lookup s' (normalize_path p) = Some item /\ get_node s' item = Some nd /\
                      ndir nd = true /\ nhasdir nd = true) /\
     (forall k, lookup s' k <> None ->
        lookup s k <> None \/ In k (normalize_path p :: anc_keys (S (length (normalize_path p))) (normalize_path p))).
 Proof.
-  intros Hl. set (name := normalize_path p) in *. set (perm' := Z.land perm chmod_bits).
+  intros Hl Hbf. set (name := normalize_path p) in *. set (perm' := Z.land perm chmod_bits).
   set (nd := with_mode (Z.lor mode_dir perm') (new_dir name (mclock s))).
   set (item := snd (alloc_node s nd)).
   set (s2 := set_data (fst (alloc_node s nd)) (alist_set name item (mdata (fst (alloc_node s nd))))).
   set (s3 := reg s2 item perm').
   assert (Hmk : m_mkdir s p perm = set_file_mode s3 name (Z.lor perm' mode_dir)).
-  { unfold m_mkdir. fold name. rewrite Hl. reflexivity. }
+  { unfold m_mkdir. fold name. rewrite Hl, Hbf. reflexivity. }
   assert (Hnm : node_name s2 item = name).
   { unfold node_name, s2. change (get_node (set_data ?a ?b) ?r) with (get_node a r).
     unfold item. rewrite get_alloc_new. reflexivity. }
@@ -394,7 +394,7 @@ Lemma create_spec s name : normalize_path name = name -> par_ok s name ->
 Proof.
   intros Hn (p & pn & Lp & Gp & Ap & Bp) Hcase. rewrite m_step_bump. cbn [m_step_raw]. unfold m_create. rewrite Hn.
   destruct Hcase as [Hnone | (dat & g & gn & L & G & A & B & D)].
-  - rewrite Hnone.
+  - rewrite Hnone, (below_file_parent_dir s name p pn Lp Gp Ap).
     set (nf := new_file name (mclock s)). set (f := snd (alloc_node s nf)).
     set (s2 := set_data (fst (alloc_node s nf)) (alist_set name f (mdata (fst (alloc_node s nf))))).
     assert (Hne : normalize_path (path_dir name) <> name) by (intros E; rewrite E in Lp; congruence).
@@ -610,18 +610,28 @@ Qed.
 (* ---------------------------------------------------------------- the layer before a copy *)
 (* Either the parent directory of [name] is registered (a directory node with a child index) and
    [name] is absent or a regular file whose node carries that name — or neither the parent nor
-   [name] has an entry (the copy then creates the parent chain with MkdirAll). *)
+   [name] has an entry (the copy then creates the parent chain with MkdirAll) and that MkdirAll is
+   not refused: walking up from the parent's own parent, the first existing name is a directory
+   (or there is none) — MemMapFs answers ENOTDIR when it is a regular file. *)
+Definition mkdirall_clear (s : mst) (d : str) : Prop := chain_clear s (path_dir (normalize_path d)).
+
 Definition layer_sane (s : mst) (name : str) : Prop :=
   (par_ok s name /\ (lookup s name = None \/ exists dat, file_at s name dat))
-  \/ (lookup s (normalize_path (path_dir name)) = None /\ lookup s name = None).
+  \/ (lookup s (normalize_path (path_dir name)) = None /\ lookup s name = None /\ mkdirall_clear s (path_dir name)).
+
+Lemma cosmetic_mkdirall_clear s s' d : cosmetic s s' -> mkdirall_clear s d -> mkdirall_clear s' d.
+Proof.
+  intros [D N]. apply chain_clear_stable; [exact D|]. intros r n H.
+  destruct (N r n H) as (n' & G & A & _). now exists n'.
+Qed.
 
 Lemma cosmetic_layer_sane s s' name : cosmetic s s' -> layer_sane s name -> layer_sane s' name.
 Proof.
-  intros C [[P H]|[H1 H2]].
+  intros C [[P H]|[H1 [H2 H3]]].
   - left. split; [now apply (cosmetic_par_ok s)|]. destruct H as [H|[dat H]].
     + left. now rewrite (cosmetic_lookup _ _ _ C).
     + right. exists dat. now apply (cosmetic_file_at s).
-  - right. now rewrite !(cosmetic_lookup _ _ _ C).
+  - right. rewrite !(cosmetic_lookup _ _ _ C). split; [exact H1|]. split; [exact H2|]. now apply (cosmetic_mkdirall_clear s).
 Qed.
 
 (* the entry of a name: the node its path-map entry points to *)
